@@ -74,7 +74,7 @@ def _replay_chunk(arg: tuple) -> tuple[int, int, int, list]:
     steps = replays = drift = 0
     for k, s in items:
         beh = json.loads(s)
-        store_replay.set_load_factor([1000, 2, 3, 4][k % 4])      # edits straddle block boundaries in 3 of 4 replays
+        store_replay.set_load_factor(([1000, 2, 3, 4] + store_replay.ROTATION)[k % 13])      # edits straddle block boundaries in most replays
         for layout in (range(h.n_layouts) if layouts == 'all' else [k % h.n_layouts]):
             try:
                 r = listreplay.Replay(h, beh, layout, check=set(check))
@@ -83,7 +83,13 @@ def _replay_chunk(arg: tuple) -> tuple[int, int, int, list]:
                 drift += r.drift
                 replays += 1
             except Exception as e:  # noqa: BLE001
-                out.append(('machinery', f'{hname} layout {layout}: {type(e).__name__}: {e}', beh, 0, layout))
+                where = common.raised_in_repo(e)
+                if where:
+                    out.append(('unobservable', f'{hname}/unobservable',
+                                {'step': 0, 'layout': layout, 'behaviour': beh,
+                                 'what': f'the document cannot be read any more: {type(e).__name__}: {e} (raised in {where})'}, 0, layout))
+                else:
+                    out.append(('machinery', f'{hname} layout {layout}: {type(e).__name__}: {e}', beh, 0, layout))
                 continue
             for step, kind, fp, msg in f:
                 out.append((kind, fp, {'step': step, 'layout': layout, 'what': msg, 'behaviour': beh}, 0, layout))
@@ -125,6 +131,8 @@ def main(prop: str, tier: str, rep: common.Reporter | None = None, finish: bool 
                 for kind, fp, detail, _, _ in out:
                     if kind == 'machinery':
                         rep.machinery_error(fp)
+                    elif kind == 'unobservable':
+                        rep.violation(fp, detail)
                     elif kind in check:
                         if kind == 'exc' and prop == 'C19' and '/attached/' not in fp:
                             # wrong exception class on index/key errors: C10's business unless the call
